@@ -1,6 +1,46 @@
 """Registry of claimed properties -> MANIFEST.json entries (tools/mkmanifest.py)."""
 
 CLAIMED = {
+    "C03": dict(
+        category="exploration",
+        technique="differential monitor over generated programs: -j1 vs -j2..16 with injected schedule perturbation (guarded hook), output sets compared; ASan+UBSan subset",
+        text=("Generated C01-fragment programs (no choice-domain / auto-increment, scaled-up inputs) run by the real interpreter at -j1 and "
+              "at 3 of {2,3,4,8,16} threads with random yields/spins injected at lock, lease and parallel-loop points; every output "
+              "relation must equal the -j1 output as a set, no duplicates, no abort or sanitizer report. Evidence counts the runs in "
+              "which >= 2 worker threads passed perturbation points. Held on the programs and schedules explored (hundreds quick, "
+              "tens of thousands thorough); interpreter only."),
+        note="trusts: OS scheduler + injected perturbation reach the relevant interleavings; compiled executables not covered; whole-program TSan not used (uninstrumented libomp barriers make its reports undecidable here)",
+        design="6 C03",
+    ),
+    "C04": dict(
+        category="exploration",
+        technique="differential monitor over generated programs: default pipeline vs --disable-transformers=<pass / subsets / all> and random inline/no_inline qualifiers",
+        text=("Generated programs run by the real interpreter with the default AST pipeline and with each of the 9 switchable passes the "
+              "property names disabled singly, in random subsets and all together, and with random inline/no_inline qualifiers on "
+              "non-I/O relations (sets rejected by the semantic checker are skipped); output relations must be identical, no abort. "
+              "Non-trivial cases are those whose transformed AST really differs. Known findings (inliner aborts) are listed in known_findings.json."),
+        note="trusts: generator distribution; interpreter only; InlineRelationsTransformer itself is not switched off",
+        design="6 C04",
+    ),
+    "C05": dict(
+        category="exploration",
+        technique="differential monitor over generated programs: untransformed vs --magic-transform=* / subsets / exclude / magic,no_magic qualifiers",
+        text=("Generated programs (negation, aggregates, records, ADTs, recursion, eqrel) run by the real interpreter untransformed and under "
+              "four magic-set selections; output relations must be identical, no abort. Non-trivial cases are those whose transformed AST "
+              "contains @magic relations. One defect repaired (fix: eqrel + magic qualifier), three abort classes recorded as known findings."),
+        note="trusts: generator distribution; interpreter only",
+        design="6 C05",
+    ),
+    "C06": dict(
+        category="exploration",
+        technique="differential monitor over generated programs: full RAM pipeline vs one / several RAM transformers skipped through the guarded SOUFFLE_VERIF_SKIP_RAM hook",
+        text=("Generated programs run by the real interpreter (-j4) with the full RAM transformer sequence and with each of 12 skippable RAM "
+              "passes skipped singly plus two random subsets; output relations must be identical, no abort. Non-trivial cases are those "
+              "whose transformed RAM really differs. Two abort classes (HoistConditions skipped + ADT pattern, TupleId skipped + aggregate) "
+              "are recorded as known findings."),
+        note="trusts: generator distribution; interpreter only (compiled code not covered)",
+        design="6 C06",
+    ),
     "C29": dict(
         category="exploration",
         technique="cooperative serial scheduler (pre-emption at every load/store) + step invariants + linearizability checker over recorded histories; TSan/ASan free-mode stress",
